@@ -51,6 +51,15 @@ pub fn detached<TActor: crate::Actor>(
     Ok((c, DetachedPorts(p)))
 }
 
+/// A real remote-id [ActorCell] (what `ractor_cluster` creates for a peer's actor) without an actor task
+#[cfg(feature = "cluster")]
+pub fn detached_remote<TActor: crate::Actor>(
+    id: ActorId,
+) -> Result<(ActorCell, DetachedPorts), SpawnErr> {
+    let (c, p) = ActorCell::new_remote::<TActor>(None, id)?;
+    Ok((c, DetachedPorts(p)))
+}
+
 /// `ActorCell::set_status` (runs the registry / pg cleanup and the stop notification)
 pub fn set_status(cell: &ActorCell, s: ActorStatus) -> ActorStatus {
     cell.set_status(s)
